@@ -172,7 +172,7 @@ class ExtentAttribute:
 
   @staticmethod
   def set(ttml_element, res):
-    ttml_element.set(ExtentAttribute.qn, f"{res.width:g}px {res.height:g}px")
+    ttml_element.set(ExtentAttribute.qn, f"{res.width}px {res.height}px")
 
 class ActiveAreaAttribute:
   '''ittp:activeArea attribute on \\<tt\\>
@@ -319,7 +319,7 @@ class DisplayAspectRatioAttribute:
   def set(ttml_element, display_aspect_ratio: Fraction):
     ttml_element.set(
       DisplayAspectRatioAttribute.qn, 
-      f"{display_aspect_ratio.numerator:g} {display_aspect_ratio.denominator:g}"
+      f"{display_aspect_ratio.numerator} {display_aspect_ratio.denominator}"
     )
 
 class FrameRateAttribute:
